@@ -357,6 +357,40 @@ def main():
                 ck.violation("prefactor-is-exact-average", "basis-tuple",
                              dict(rp, got=got, want=want), rp)
     ck.traces_validated += nb
+    # the same polarisations in the representations a user may type:
+    # integer lists / tuples / integer arrays for the pulses, a float vector
+    # for the analyser (and the other way round)
+    forms = [("int-lists", lambda v: [int(x) for x in v]),
+             ("int-array", lambda v: numpy.array(v).astype(int)),
+             ("float-tuple", lambda v: tuple(float(x) for x in v)),
+             ("float32", lambda v: numpy.array(v, dtype=numpy.float32))]
+    for s in range(40 if ck.thorough else 12):
+        fname, conv = forms[s % len(forms)]
+        pulses = [basis[int(rng.randint(3))] for k in range(3)]
+        det = rng.randn(3)
+        det /= numpy.linalg.norm(det)
+        ds = [rng.randn(3) for k in range(4)]
+        for order in ("pulses-typed", "detection-typed"):
+            if order == "pulses-typed":
+                es_in = [conv(p) for p in pulses] + [det]
+                es_ref = list(pulses) + [det]
+            else:
+                bdet = basis[int(rng.randint(3))]
+                pf = [rng.randn(3) for k in range(3)]
+                es_in = pf + [conv(bdet)]
+                es_ref = pf + [bdet]
+            want = exact_avg(es_ref, ds)
+            got = code_pref(es_in, ds)
+            rp = dict(kind="typed-polarisations", form=fname, which=order,
+                      e=[[float(x) for x in v] for v in es_ref],
+                      d=[v.tolist() for v in ds])
+            ck.case("prefactor-input-types", (s, order),
+                    sample=dict(rp, got=got, want=want))
+            tolr = 1e-6 if fname == "float32" else 1e-11
+            if abs(got - want) > tolr * max(1.0, abs(want)):
+                ck.violation("prefactor-is-exact-average",
+                             "typed-polarisations:" + fname,
+                             dict(rp, got=got, want=want), rp)
     # random real vectors and signs of the sides
     for s in range(400 if ck.thorough else 60):
         es = [rng.randn(3) for k in range(4)]
